@@ -8,6 +8,7 @@ mod engine;
 mod gen;
 mod oracle;
 mod props;
+mod psetgen;
 
 use engine::{Report, Tier};
 use serde_json::{json, Value};
@@ -68,6 +69,35 @@ fn main() {
         }
     };
     engine::install_panic_hook();
+
+    // crash isolation: the exploration itself runs in a child process
+    if replay.is_none() && std::env::var("MC_CHILD").is_err() {
+        let _ = std::fs::create_dir_all("/verif/.build");
+        match engine::crash::run_child(&args) {
+            Ok(code) => std::process::exit(code),
+            Err(c) => {
+                let report = Report::new(entry.0, tier, seed);
+                report.eval(1);
+                report.state(1);
+                report.trans(1);
+                report.nontrivial(1);
+                report.nontrivial(2);
+                report.not_exhaustive();
+                let signame = match c.signal { 11 => "SIGSEGV", 6 => "SIGABRT", 7 => "SIGBUS", 4 => "SIGILL", 8 => "SIGFPE", 9 => "SIGKILL", _ => "signal" };
+                report.violation(
+                    format!("crash/{}/{}", signame, c.label),
+                    json!({"crash_label": c.label, "hex": engine::hex(&c.input), "signal": c.signal}),
+                    format!("the process was killed by {} while the crate was processing this input ({} bytes); exploration stopped there", signame, c.input.len()),
+                );
+                report.sample(json!({"crash": signame}));
+                report.assume("the run was cut short by a fatal signal in the crate or its C dependency; coverage counts are not meaningful");
+                finish(&report, 0.0);
+            }
+        }
+    }
+    if std::env::var("MC_CHILD").is_ok() {
+        engine::crash::install_child();
+    }
 
     if let Some(path) = replay {
         let txt = std::fs::read_to_string(&path).unwrap_or_else(|e| {
